@@ -36,6 +36,8 @@ type lexSSAModel struct {
 	outer    *ssa.Function // exported token function
 	inside   *ssa.Function // token function used inside a tag
 	skipper  *ssa.Function // whitespace skipper
+	// loopThroughHelper: void functions whose cursor loop lives in a helper they call
+	loopThroughHelper map[*ssa.Function]bool
 	// skipWrappers: functions that run the skipper first and then loop over comments (walked in line)
 	skipWrappers map[*ssa.Function]bool
 	scanners map[*ssa.Function]string
@@ -167,6 +169,35 @@ func (w *World) lexSSA() *lexSSAModel {
 		if sig.Results().Len() == 0 && sig.Params().Len() == 0 && fn != lm.readChar {
 			lm.skipper = fn
 			voidLoops = append(voidLoops, fn)
+		}
+	}
+	// ... and the methods without result or parameters that run a cursor loop through a helper
+	// (skipWhitespace written as readWhile(isWhitespace))
+	for _, f := range m.methods {
+		fn := w.SSAFunc(f)
+		sig := f.Obj.Type().(*types.Signature)
+		if fn == nil || lm.hasLoop[fn] || fn == lm.readChar || sig.Results().Len() != 0 || sig.Params().Len() != 0 {
+			continue
+		}
+		loops := false
+		for _, b := range fn.Blocks {
+			for _, ins := range b.Instrs {
+				if c, ok := ins.(*ssa.Call); ok {
+					if cal := c.Call.StaticCallee(); cal != nil && cal != lm.readChar && lm.hasLoop[cal] {
+						loops = true
+					}
+				}
+			}
+		}
+		if loops {
+			if lm.skipper == nil {
+				lm.skipper = fn
+			}
+			voidLoops = append(voidLoops, fn)
+			if lm.loopThroughHelper == nil {
+				lm.loopThroughHelper = map[*ssa.Function]bool{}
+			}
+			lm.loopThroughHelper[fn] = true
 		}
 	}
 	// the inside-tag token function: what the exported one returns when the inside flag is set
@@ -382,6 +413,12 @@ func (lm *lexSSAModel) inlinePolicy(root *ssa.Function) func(caller, callee *ssa
 		}
 		if pkgOf(callee) == nil || pkgOf(callee) != root.Pkg {
 			return false
+		}
+		if callee == lm.skipper && root != lm.skipper {
+			return false // the skipper is a step of its own, whatever it looks like inside
+		}
+		if root == lm.skipper && lm.loopThroughHelper[root] && callee.Pkg == root.Pkg {
+			return true // the skipper itself is walked with the helper that holds its loop
 		}
 		if lm.skipWrappers[callee] {
 			return true // its loops are walked like loops of the token function itself
